@@ -172,7 +172,7 @@ theorem invN_tables {s : State} {i : Nat} {xi y : Inst} {F : List File} {U : Lis
   { x with current := t :: x.current, created := t.uri :: x.created, made := t.uri :: x.made }
 
 @[reducible] def compactInst (x : Inst) (rm : List Path) (add : List Tbl) : Inst :=
-  { x with current := x.current.filter (fun t => !rm.contains t.uri) ++ add, created := uris add ++ x.created,
+  { x with current := dropTables x.current rm ++ add, created := uris add ++ x.created,
            made := uris add ++ x.made }
 
 theorem step_invN_simple {s s' : State} {a : Act} (inv : InvN s)
@@ -228,7 +228,7 @@ theorem step_invN_simple {s s' : State} {a : Act} (inv : InvN s)
           (by
             intro t' ht'
             rcases List.mem_append.mp ht' with ht' | ht'
-            · exact Or.inl (List.mem_filter.mp ht').1
+            · exact Or.inl (mem_dropTables ht')
             · have hm : t'.uri ∈ uris add := List.mem_map.mpr ⟨t', ht', rfl⟩
               exact Or.inr ⟨List.mem_append_left _ (List.mem_map.mpr ⟨t'.uri, hm, rfl⟩), List.mem_append_left _ hm⟩)
           (by
